@@ -814,6 +814,67 @@ fn alloc_monitors(
     }
 }
 
+/// Watchdog: a broken (mutated) allocator may make the real code loop forever (e.g. the scatter loop
+/// when the pools and the concise state disagree). Every real-code call of the executor is bracketed by
+/// `enter`/`leave`; when a call makes no progress for `LIMIT_SECS`, the watchdog thread completes the
+/// trace (`out !hang`, monitor failures, `end`) and exits the process. Never fires on the unchanged tree.
+mod watchdog {
+    use std::io::Write;
+    use std::sync::Mutex;
+    use std::sync::atomic::{AtomicU64, Ordering};
+
+    const LIMIT_SECS: u64 = 15;
+    static PROGRESS: AtomicU64 = AtomicU64::new(0);
+    pub static SELFTEST_HANG: std::sync::atomic::AtomicBool = std::sync::atomic::AtomicBool::new(false);
+    /// `Some((op line still to be printed, op name))` while the main thread is inside a real-code call
+    static CURRENT: Mutex<Option<(Option<String>, &'static str)>> = Mutex::new(None);
+
+    pub fn start() {
+        std::thread::spawn(|| {
+            let mut last = PROGRESS.load(Ordering::SeqCst);
+            let mut stalled = 0u64;
+            loop {
+                std::thread::sleep(std::time::Duration::from_secs(1));
+                let now = PROGRESS.load(Ordering::SeqCst);
+                let inside = CURRENT.lock().unwrap().clone();
+                if now != last || inside.is_none() {
+                    last = now;
+                    stalled = 0;
+                    continue;
+                }
+                stalled += 1;
+                if stalled < LIMIT_SECS {
+                    continue;
+                }
+                // the main thread flushed its trace before entering the call and is stuck in it
+                let (pending, name) = inside.unwrap();
+                let mut out = std::io::stdout().lock();
+                if let Some(line) = pending {
+                    writeln!(out, "op {line}").ok();
+                }
+                writeln!(out, "out !hang").ok();
+                let c04 = if name == "alloc" || name == "enabled" { "c04.exact" } else { "c04.release" };
+                writeln!(out, "mon FAIL {c04} hang real code does not terminate in `{name}` (no progress for {LIMIT_SECS} s)").ok();
+                writeln!(out, "mon FAIL c16.agree hang real code does not terminate in `{name}` (no progress for {LIMIT_SECS} s)").ok();
+                writeln!(out, "end").ok();
+                out.flush().ok();
+                eprintln!("alloc: real code hangs in `{name}`; trace completed by the watchdog");
+                std::process::exit(0);
+            }
+        });
+    }
+
+    pub fn enter(pending_op_line: Option<String>, name: &'static str) {
+        *CURRENT.lock().unwrap() = Some((pending_op_line, name));
+        PROGRESS.fetch_add(1, Ordering::SeqCst);
+    }
+
+    pub fn leave() {
+        *CURRENT.lock().unwrap() = None;
+        PROGRESS.fetch_add(1, Ordering::SeqCst);
+    }
+}
+
 /// Result of applying one op to the real code.
 #[derive(Clone, Copy, Debug, PartialEq, Eq)]
 pub enum Outcome {
@@ -883,6 +944,12 @@ impl<'a> Exec<'a> {
         Outcome::Aborted
     }
 
+    /// Flushes the trace and arms the watchdog for one real-code call.
+    fn arm(&mut self, pending_op_line: Option<String>, name: &'static str) {
+        self.t.flush();
+        watchdog::enter(pending_op_line, name);
+    }
+
     fn take_log(&mut self) -> Vec<SolverRecord> {
         let log = take_solver_log();
         self.stats.solver_calls += log.len() as u64;
@@ -895,7 +962,10 @@ impl<'a> Exec<'a> {
         self.t.op("init");
         let case = Case { items: self.items.clone(), couplings: self.couplings.clone(), ops: vec![] };
         let (desc, names) = build_descriptor(&case);
-        let a = match catch(|| VerifAllocator::new(&desc, names)) {
+        self.arm(None, "init");
+        let r = catch(|| VerifAllocator::new(&desc, names));
+        watchdog::leave();
+        let a = match r {
             Err(msg) => return self.panic("init", &msg),
             Ok(a) => a,
         };
@@ -936,10 +1006,12 @@ impl<'a> Exec<'a> {
             return self.bad_op();
         }
         clear_solver_log();
+        self.arm(Some(format!("enabled {rq_s} -")), "enabled");
         let r = {
             let a = self.va.as_ref().unwrap();
             catch(|| a.is_enabled(&req))
         };
+        watchdog::leave();
         let log = self.take_log();
         self.t.op(&format!("enabled {rq_s} {}", sol_string(&log)));
         let b = match r {
@@ -972,10 +1044,18 @@ impl<'a> Exec<'a> {
         }
         let pre = self.va.as_ref().unwrap().snapshot();
         clear_solver_log();
+        self.arm(Some(format!("alloc {h} {rq_s} - -")), "alloc");
         let r = {
             let a = self.va.as_mut().unwrap();
-            catch(|| a.try_allocate(&req))
+            catch(|| {
+                // `--selftest-hang`: simulates a non-terminating real call (checks the watchdog only)
+                while h == 2 && watchdog::SELFTEST_HANG.load(std::sync::atomic::Ordering::SeqCst) {
+                    std::thread::sleep(Duration::from_millis(100));
+                }
+                a.try_allocate(&req)
+            })
         };
+        watchdog::leave();
         let log = self.take_log();
         let sol = sol_string(&log);
         let res = match r {
@@ -1052,10 +1132,12 @@ impl<'a> Exec<'a> {
             return self.bad_op();
         };
         let (_, al) = self.live.remove(pos);
+        self.arm(None, "release");
         let r = {
             let a = self.va.as_mut().unwrap();
             catch(|| a.release_allocation(al))
         };
+        watchdog::leave();
         if let Err(msg) = r {
             return self.panic("release", &msg);
         }
@@ -1559,9 +1641,13 @@ fn replay_main() {
 }
 
 pub fn main(mode: &str, args: &[String]) {
+    watchdog::start();
     match mode {
         "gen" => {
             let a = GenArgs::parse(args);
+            if a.has("--selftest-hang") {
+                watchdog::SELFTEST_HANG.store(true, std::sync::atomic::Ordering::SeqCst);
+            }
             let mut t = Trace::new();
             let mut stats = Stats::default();
             for k in 0..a.cases {
